@@ -68,9 +68,10 @@ type sinkWrite struct {
 }
 
 type opResult struct {
-	At   int64  `json:"at"`
-	Done int64  `json:"done"`
-	Err  string `json:"err"`
+	At    int64   `json:"at"`
+	Done  int64   `json:"done"`
+	Err   string  `json:"err"`
+	Draws []float64 `json:"draws,omitempty"` // reseed: the next Float32 values the global source will yield
 }
 
 type linkResult struct {
@@ -156,7 +157,9 @@ func runLinks(t *testing.T, raw []byte) []linkResult {
 	var in struct {
 		Cases []linkCase `json:"cases"`
 	}
-	if err := json.Unmarshal(raw, &in); err != nil {
+	dec := json.NewDecoder(bytes.NewReader(raw))
+	dec.UseNumber() // attribute values keep their exact decimal text (int64 extremes)
+	if err := dec.Decode(&in); err != nil {
 		t.Fatal(err)
 	}
 	res := make([]linkResult, len(in.Cases))
@@ -277,6 +280,10 @@ func runLinkCase(t *testing.T, c *linkCase) linkResult {
 				proxy.Toxics.ResetToxics(t.Context())
 			case "reseed":
 				rand.Seed(op.Seed)
+				m := rand.New(rand.NewSource(op.Seed))
+				for j := 0; j < 4; j++ {
+					opRes[i].Draws = append(opRes[i].Draws, float64(m.Float32()))
+				}
 			}
 			if err != nil {
 				opRes[i].Err = err.Error()
